@@ -24,6 +24,9 @@ structure Ord where
 inductive Call
   | set (r : Nat)          -- install recorder `r`
   | load
+  | nested                 -- a lookup made from INSIDE a call into the recorder this thread's previous lookup
+                           -- returned (the recorder emits while it handles an emission): it exists only if that
+                           -- previous lookup answered `Some` (the no-op recorder emits nothing), see `settle`
   deriving Repr, DecidableEq
 
 inductive Res
@@ -55,14 +58,29 @@ structure Sys where
 def pcOfCall : Call → PC
   | .set _ => .cas
   | .load => .loadState
+  | .nested => .loadState
+
+def Res.isSome : Res → Bool
+  | .some _ => true
+  | _ => false
+
+/-- what is left of a thread's program after a call answered `r`: nested lookups directly behind it are made
+    only if `r` was `Some` (only a real recorder emits from inside a call; `f(&NOOP_RECORDER)` does nothing) -/
+def settle (r : Res) : List Call → List Call
+  | [] => []
+  | .nested :: cs => if r.isSome then .nested :: cs else settle r cs
+  | .set x :: cs => .set x :: cs
+  | .load :: cs => .load :: cs
 
 /-- move to the next call of the thread (or `done`) -/
 def Thread.advance (t : Thread) (r : Res) : Thread :=
-  let rest := t.calls.tail
+  let rest := settle r t.calls.tail
   { t with calls := rest, results := t.results ++ [r],
            pc := match rest with | [] => .done | c :: _ => pcOfCall c }
 
-def mkThread (calls : List Call) : Thread := { calls, pc := .start, synced := false, results := [] }
+/-- (a program cannot begin with a nested lookup: there is no enclosing dispatch; such calls are dropped) -/
+def mkThread (calls : List Call) : Thread :=
+  { calls := settle .none calls, pc := .start, synced := false, results := [] }
 
 def init (progs : List (List Call)) : Sys :=
   { state := 0, cell := none, published := false, raced := false, threads := progs.map mkThread }
@@ -77,10 +95,10 @@ def stepThread (o : Ord) (s : Sys) (t : Thread) : Sys × Thread :=
     else (s, t.advance (.err r))
   | .write, .set r :: _ => ({ s with cell := some r }, { t with pc := .store })
   | .store, .set _ :: _ => ({ s with state := 2, published := o.storeRelease }, t.advance .ok)
-  | .loadState, .load :: _ =>
+  | .loadState, .load :: _ | .loadState, .nested :: _ =>
     if s.state = 2 then (s, { t with pc := .read, synced := t.synced || (o.loadAcquire && s.published) })
     else (s, t.advance .none)
-  | .read, .load :: _ =>
+  | .read, .load :: _ | .read, .nested :: _ =>
     let s' := if t.synced then s else { s with raced := true }
     (s', t.advance (match s.cell with | some r => .some r | none => .torn))
   | _, _ => (s, t)      -- `done`, or a pc that does not fit the call: no step
